@@ -3,4 +3,4 @@ Require Extraction.
 Require Import ExtrOcamlBasic.
 From Atlas Require Import Base.Bytes Dev.DevSession Dev.DevTxModel Dev.DevServer Dev.DevServerPg.
 Extraction Language OCaml.
-Extraction "model.ml" observe run_cmd tx_observe run_scenario run_scenario_pg fault_stream.
+Extraction "model.ml" observe run_cmd tx_observe run_scenario run_scenario_pg run_twice run_twice_pg fault_stream.
